@@ -392,13 +392,8 @@ Definition fill_body (t tc : mten) (fv : V) : res mten :=
     | false :: _ => Ok tc
     | [] => Panic
     end
-  else if is_rowvec sh || is_colvec sh then
-    match k_runs true t with
-    | Ok rl => match fill_runs tc rl with Ok _ => Ok tc | Err => Err | Panic => Panic end
-    | Err => Err
-    | Panic => Panic
-    end
   else
+    (* (row and column vectors take this path too since the fix of the inverted err test) *)
     let m := k_miter tc in
     match fill_loop (mit_fuel m) m (mt_data tc) fv with
     | Ok d => Ok (with_data tc d)
@@ -432,7 +427,8 @@ Definition k_transpose (is_string : bool) (t : mten) : res mten :=
     | None => Panic
     | Some idx =>
       let mask' : option (list bool) :=
-        if is_string || negb (k_is_masked t) then Some (mt_mask t) else
+        (* (string tensors move their mask too since the fix f218ec0: transposeMask runs first) *)
+        if negb (k_is_masked t) then Some (mt_mask t) else
         (* tmp := make([]bool, len(orig)); tmp[j] = orig[i]; copy(orig, tmp) *)
         match gather (mt_mask t) idx with
         | Some g => if zlen (mt_mask t) <? zlen g then None
